@@ -68,7 +68,7 @@ def main():
                   "diff_notebooks / decide_merge_with_diff / apply_decisions in nbdime.merging.notebooks wrapped with fault points",
                   "nbdime.args.get_defaults_for_argparse -> {} for the driver's parser"] + \
         __import__("harness.fam_nbmerge", fromlist=["STUBS"]).STUBS[:2]
-    chk.require_goals(["clean-exit", "conflict-exit", "agreed-deletion", "driver-wrote-local-path", "merged-to-stdout", "decisions-to-file"] +
+    chk.require_goals(["clean-exit", "conflict-exit", "agreed-deletion", "driver-wrote-local-path", "merged-to-stdout", "decisions-to-file", "stdout-fault-BrokenPipeError", "stdout-fault-ENOSPC"] +
                       ["fault-" + s for s in fam_cli.STEPS] + ["kind-" + k for k in fam_cli.KINDS])
     return chk.finish()
 
